@@ -84,7 +84,8 @@ func (s *Spies) Install(e *twig.Engine) {
 			return a, nil
 		}
 	}
-	for _, n := range []string{"spy", "spy2", "forbid_fn"} {
+	// "dual" is registered both as a function and as a filter (a policy answers for them separately)
+	for _, n := range []string{"spy", "spy2", "forbid_fn", "dual"} {
 		e.AddFunction(n, fn(n))
 	}
 	e.AddFunction("id", func(args ...interface{}) (interface{}, error) {
@@ -101,7 +102,7 @@ func (s *Spies) Install(e *twig.Engine) {
 			return v, nil
 		}
 	}
-	for _, n := range []string{"spyf", "forbid"} {
+	for _, n := range []string{"spyf", "forbid", "dual"} {
 		e.AddFilter(n, fl(n))
 	}
 	e.AddTest("spyt", func(v interface{}, args ...interface{}) (bool, error) {
